@@ -36,7 +36,10 @@ def cell_diffs(a, b, eng_schema=None, limit=60):
 def main():
   args = json.loads(sys.argv[1])
   l = args["l"]
-  if args["profile"].startswith("fault:"):
+  if args["profile"].startswith("ro:"):
+    rec = histories.run_readonly_history(args["seed"], profile=args["profile"][3:], n_bundles=args["n_bundles"],
+                                         hooks={"keep_states": True})
+  elif args["profile"].startswith("fault:"):
     rec = histories.run_fault_history(args["seed"], profile=args["profile"][6:], n_bundles=args["n_bundles"],
                                       hooks={"keep_states": True}, **args.get("kw", {}))
   else:
@@ -63,7 +66,7 @@ def main():
   elif ev["k"] == "P":
     ctx["diffs"] = cell_diffs(states[l - 1], rec.peers[l - 1])
   else:
-    ctx["diffs"] = cell_diffs(before(l), states[l - 1]) if ev["k"] == "F" else []
+    ctx["diffs"] = cell_diffs(before(l), states[l - 1]) if ev["k"] in ("F", "Q") or ev["tag"] == "quiet" else []
   # column facts for the differing cells: formula flag, type
   facts = {}
   for d in ctx["diffs"]:
